@@ -86,7 +86,7 @@ def check_work(run, ex, jnp, rng, tier):
     for D in (1, 2, 3):
         # grid sizes: odd, even, and divisible by 6 (where 2/3 (N//2) is an integer: the edge of the retained band is the first mode whose
         # triple products would alias onto retained modes)
-        for N in ((16, 15, 18, 24) if D == 1 else (12, 9) if D == 2 else (8, 9, 6)):
+        for N in ((16, 15, 18, 24) if D == 1 else (12, 9, 10, 13) if D == 2 else (8, 9, 6)):      # N % 3 picks the domain extent: pi, 2 pi, 4 pi
             cut = (2 * (N // 2)) // 3 - 1
             for term, limited in [(t, b) for t in ("conv_sc_cons", "conv_sc_non", "conv_mc_cons", "conv_mc_non", "vort2d", "rot3d") for b in (True, False)]:
                 if term.startswith("conv_mc") and D != 1:
